@@ -467,12 +467,15 @@ func (m *engineImpl) do1(line string) string {
 		if !m.need() {
 			return "bad-op"
 		}
+		// SQLite creates the journal only when it has no journal file open: whatever handle the
+		// simulated connection still had (a journal LiteFS removed behind its back) is closed first
+		if m.jf != nil {
+			_ = m.jf.Close()
+			m.jf = nil
+		}
 		fh, err := m.db.CreateJournal()
 		if err != nil {
 			return errStr(err)
-		}
-		if m.jf != nil {
-			_ = m.jf.Close()
 		}
 		m.jf = fh
 		return "ok"
@@ -512,12 +515,13 @@ func (m *engineImpl) do1(line string) string {
 		if !m.need() {
 			return "bad-op"
 		}
+		if m.wf != nil { // as for the journal: created only when the connection has no WAL file open
+			_ = m.wf.Close()
+			m.wf = nil
+		}
 		fh, err := m.db.CreateWAL()
 		if err != nil {
 			return errStr(err)
-		}
-		if m.wf != nil {
-			_ = m.wf.Close()
 		}
 		m.wf = fh
 		return "ok"
@@ -1065,6 +1069,15 @@ func (m *engineImpl) state() string {
 		m.db.PageN(), mode, fileSize(m.db.DatabasePath()), fileSize(m.db.JournalPath()), fileSize(m.db.WALPath()))
 	if m.exit != 0 {
 		s += fmt.Sprintf(" exit=%d", m.exit)
+	}
+	if m.mount != nil {
+		// what an application reads through the mount: the -pos file and the database file
+		if bad := m.mount.crossCheck(m, pos); bad != "" {
+			s += " MOUNT:" + bad
+			if m.c != nil {
+				m.c.Fail("through the mount: " + bad)
+			}
+		}
 	}
 	return s
 }
